@@ -38,6 +38,39 @@ def tmatch(got_t, want_t):
     return got_t in want_t if isinstance(want_t, tuple) else got_t == want_t
 
 
+def _tri_eval(test, read, value):
+    """Value of `test` when the expression node `read` evaluates to `value` (None or 0); None if it cannot be told."""
+    if test is read:
+        return bool(value)
+    if isinstance(test, ast.UnaryOp) and isinstance(test.op, ast.Not):
+        v = _tri_eval(test.operand, read, value)
+        return None if v is None else (not v)
+    if isinstance(test, ast.BoolOp):
+        vals = [_tri_eval(v, read, value) for v in test.values]
+        if isinstance(test.op, ast.And):
+            if any(v is False for v in vals):
+                return False
+            return True if all(v is True for v in vals) else None
+        if any(v is True for v in vals):
+            return True
+        return False if all(v is False for v in vals) else None
+    if isinstance(test, ast.Compare) and len(test.ops) == 1:
+        a, b = test.left, test.comparators[0]
+        other = b if a is read else (a if b is read else None)
+        if other is None or not isinstance(other, ast.Constant):
+            return None
+        op, c = test.ops[0], other.value
+        if isinstance(op, (ast.Eq,)):
+            return value == c
+        if isinstance(op, (ast.NotEq,)):
+            return value != c
+        if isinstance(op, ast.Is):
+            return value is c
+        if isinstance(op, ast.IsNot):
+            return value is not c
+    return None
+
+
 def diff_terms(got, want, path="", check_bind=True):
     """first mismatch between extracted and schema terms, or None"""
     for i in range(max(len(got), len(want))):
@@ -447,6 +480,10 @@ def run(ctx):
                 handled = ("%s is None" % chain, False) in facts or any(
                     isinstance(y, ast.Compare) and x in list(ast.walk(y)) and any(isinstance(c, ast.Constant) and c.value is None for c in y.comparators)
                     for y in (node[0].walk() if node else []))
+                if not handled and node and node[0].kind == "test":
+                    # a test that sends the undiscovered state (None) down the same arm as the fallback state (0) is safe:
+                    # format 0 / version 0 are valid whatever discovery decides later
+                    handled = _tri_eval(node[0].stmt.test, x, None) is not None and _tri_eval(node[0].stmt.test, x, None) == _tri_eval(node[0].stmt.test, x, 0)
                 r.check(handled, "%s#read(%s)" % (f.qname, chain),
                         "`%s` is read where it may still be None (undiscovered): `None != 0` selects message format 1 before "
                         "discovery; discovery may then fall back to version 0" % chain, where(f, x),
